@@ -376,7 +376,14 @@ pub fn break_it(doc: &ANode, r: &Rendered, k: usize, rng: &mut Rng, fragment: bo
             }
             let (at, q) = c[rng.below(c.len())].clone();
             let uri = q.ns.replace('&', "&amp;").replace('<', "&lt;").replace('"', "&quot;");
-            b(insert(t, at, &format!(" xmlns:zq=\"{}\" zq:{}=\"dup\"", uri, q.local)), "attribute-repeated-through-second-prefix", false)
+            // the alias prefix is declared either on the element itself or on the outermost element
+            let root_start = starts[0];
+            if at > root_start.end && rng.bool() && t[root_start.end..at].contains('>') {
+                let s1 = insert(t, at, &format!(" zq:{}=\"dup\"", q.local));
+                b(insert(&s1, root_start.end, &format!(" xmlns:zq=\"{}\"", uri)), "attribute-repeated-through-second-prefix-declared-on-ancestor", false)
+            } else {
+                b(insert(t, at, &format!(" xmlns:zq=\"{}\" zq:{}=\"dup\"", uri, q.local)), "attribute-repeated-through-second-prefix", false)
+            }
         }
         12 => {
             let s = starts[rng.below(starts.len())];
